@@ -130,6 +130,24 @@ func (d *Driver) Snapshot(ctx context.Context) (migrate.RestoreFunc, error) {
 	if !(r == nil || (len(r.Schemas) == 1 && r.Schemas[0].Name == mainFile && len(r.Schemas[0].Tables) == 0)) {
 		return nil, &migrate.NotCleanError{State: r, Reason: fmt.Sprintf("found table %q", r.Schemas[0].Tables[0].Name)}
 	}
+	// Views are not part of the inspection, but are deleted by the restore function below.
+	rows, err := d.QueryContext(ctx, "SELECT name FROM sqlite_master WHERE type = 'view' LIMIT 1")
+	if err != nil {
+		return nil, err
+	}
+	var view sql.NullString
+	if rows.Next() {
+		err = rows.Scan(&view)
+	}
+	if cerr := rows.Close(); err == nil {
+		err = cerr
+	}
+	if err != nil {
+		return nil, err
+	}
+	if view.Valid {
+		return nil, &migrate.NotCleanError{State: r, Reason: fmt.Sprintf("found view %q", view.String)}
+	}
 	return func(ctx context.Context) error {
 		for _, stmt := range []string{
 			"PRAGMA writable_schema = 1;",
